@@ -230,9 +230,9 @@ def inp_units(s, units, controls_text="", rules_text="", status_settings=False):
             val = g(c["value"] / (f["flow"] if vt == "FCV" else (f["pres"] if vt in ("PRV", "PSV", "PBV") else 1.0)))
         if c.get("rule"):
             if c["kind"] == "level":
-                cond = "TANK %s LEVEL %s %s" % (c["node"], {">": "ABOVE", "<": "BELOW"}[c["rel"]], g(c["thr"] / f["len"]))
+                cond = "TANK %s LEVEL %s %s" % (c["node"], {">": "ABOVE", "<": "BELOW", ">=": "ABOVE", "<=": "BELOW"}[c["rel"]], g(c["thr"] / f["len"]))
             elif c["kind"] == "pressure":
-                cond = "JUNCTION %s PRESSURE %s %s" % (c["node"], {">": "ABOVE", "<": "BELOW"}[c["rel"]], g(c["thr"] / f["pres"]))
+                cond = "JUNCTION %s PRESSURE %s %s" % (c["node"], {">": "ABOVE", "<": "BELOW", ">=": "ABOVE", "<=": "BELOW"}[c["rel"]], g(c["thr"] / f["pres"]))
             elif c["kind"] == "time":
                 cond = "SYSTEM TIME %s %s" % (c["rel"], hms(c["t"]))
             else:
@@ -246,9 +246,9 @@ def inp_units(s, units, controls_text="", rules_text="", status_settings=False):
         elif c["kind"] == "clock":
             ctr.append(" LINK %s %s AT CLOCKTIME %s" % (c["link"], val, clock(c["t"])))
         elif c["kind"] == "level":
-            ctr.append(" LINK %s %s IF NODE %s %s %s" % (c["link"], val, c["node"], {">": "ABOVE", "<": "BELOW"}[c["rel"]], g(c["thr"] / f["len"])))
+            ctr.append(" LINK %s %s IF NODE %s %s %s" % (c["link"], val, c["node"], {">": "ABOVE", "<": "BELOW", ">=": "ABOVE", "<=": "BELOW"}[c["rel"]], g(c["thr"] / f["len"])))
         else:
-            ctr.append(" LINK %s %s IF NODE %s %s %s" % (c["link"], val, c["node"], {">": "ABOVE", "<": "BELOW"}[c["rel"]], g(c["thr"] / f["pres"])))
+            ctr.append(" LINK %s %s IF NODE %s %s %s" % (c["link"], val, c["node"], {">": "ABOVE", "<": "BELOW", ">=": "ABOVE", "<=": "BELOW"}[c["rel"]], g(c["thr"] / f["pres"])))
     rep = o["rep"] if o["rep"] != "ALL" else o["hyd"]
     opt = [" Units %s" % units, " Headloss H-W", " Specific Gravity 1", " Viscosity 1", " Trials 200", " Accuracy 0.000001", " Unbalanced Continue 10",
            " Pattern 1", " Demand Multiplier %s" % g(o["mult"]), " Emitter Exponent 0.5", " Quality None mg/L"]
